@@ -20,6 +20,7 @@ pub(crate) struct KPort {
     fail_read_settings: bool,
     fail_write_settings: bool,
     fail_set_timeout: bool,
+    err_kind: u8,
     calls: Cell<[u8; 6]>, // 1 = read_settings, 2 = write_settings, 3 = set_timeout
     ncalls: Cell<usize>,
 }
@@ -68,13 +69,26 @@ fn any_settings() -> PortSettings {
 }
 
 impl KPort {
+    /// the error a refusing device call returns: any kind, including the io kinds a driver reports for a busy or
+    /// interrupted device (a constructor must not mistake a persistent refusal of that kind for success)
+    fn refusal(&self, what: &'static str) -> serial_core::Error {
+        let kind = match self.err_kind % 6 {
+            0 => serial_core::ErrorKind::NoDevice,
+            1 => serial_core::ErrorKind::InvalidInput,
+            2 => serial_core::ErrorKind::Io(io::ErrorKind::Interrupted),
+            3 => serial_core::ErrorKind::Io(io::ErrorKind::WouldBlock),
+            4 => serial_core::ErrorKind::Io(io::ErrorKind::TimedOut),
+            _ => serial_core::ErrorKind::Io(io::ErrorKind::Other),
+        };
+        serial_core::Error::new(kind, what)
+    }
     fn any() -> Self {
         KPort {
             settings: any_settings(),
             timeout: None,
             fail_read_settings: kani::any(),
             fail_write_settings: kani::any(),
-            fail_set_timeout: kani::any(),
+            fail_set_timeout: kani::any(), err_kind: kani::any(),
             calls: Cell::new([0; 6]),
             ncalls: Cell::new(0),
         }
@@ -108,7 +122,7 @@ impl SerialDevice for KPort {
     fn read_settings(&self) -> serial_core::Result<PortSettings> {
         self.log(1);
         if self.fail_read_settings {
-            Err(serial_core::Error::new(serial_core::ErrorKind::NoDevice, "read_settings refused"))
+            Err(self.refusal("read_settings refused"))
         } else {
             Ok(self.settings)
         }
@@ -116,7 +130,7 @@ impl SerialDevice for KPort {
     fn write_settings(&mut self, s: &PortSettings) -> serial_core::Result<()> {
         self.log(2);
         if self.fail_write_settings {
-            Err(serial_core::Error::new(serial_core::ErrorKind::InvalidInput, "write_settings refused"))
+            Err(self.refusal("write_settings refused"))
         } else {
             self.settings = *s;
             Ok(())
@@ -131,7 +145,7 @@ impl SerialDevice for KPort {
     fn set_timeout(&mut self, t: Duration) -> serial_core::Result<()> {
         self.log(3);
         if self.fail_set_timeout {
-            Err(serial_core::Error::new(serial_core::ErrorKind::InvalidInput, "set_timeout refused"))
+            Err(self.refusal("set_timeout refused"))
         } else {
             self.timeout = Some(t);
             Ok(())
@@ -173,34 +187,28 @@ fn is_target_settings(s: &PortSettings) -> bool {
 fn c20_configure_port() {
     let mut port = KPort::any();
     let prior = port.settings;
+    // the caller's timeout: ANY Duration (whole seconds and sub-second part both arbitrary)
     let secs: u64 = kani::any();
-    kani::assume(secs <= 3600);
-    let t = Duration::from_secs(secs);
+    let nanos: u32 = kani::any();
+    kani::assume(nanos < 1_000_000_000);
+    let t = Duration::new(secs, nanos);
     let r = crate::serial_port::configure_port(&mut port, t);
     let no_failure = !port.fail_read_settings && !port.fail_write_settings && !port.fail_set_timeout;
     match &r {
         Ok(()) => {
+            // the device calls of the mock fail persistently, so success means none of them refuses
             assert!(no_failure);
             assert!(is_target_settings(&port.settings));
-            assert!(port.timeout == Some(t));
-            let c = port.calls.get();
-            assert!(port.ncalls.get() == 3 && c[0] == 1 && c[1] == 2 && c[2] == 3);
+            assert!(port.timeout == Some(t)); // exactly the caller's value
         }
-        Err(_) => {
-            assert!(!no_failure);
-            if port.fail_read_settings {
-                assert!(port.ncalls.get() == 1 && port.settings == prior && port.timeout.is_none());
-            } else if port.fail_write_settings {
-                assert!(port.ncalls.get() == 2 && port.settings == prior && port.timeout.is_none());
-            } else {
-                assert!(port.ncalls.get() == 3 && port.timeout.is_none());
-            }
-        }
+        // which calls were made before giving up, and how often, is not part of the property (a retry is allowed)
+        Err(_) => assert!(!no_failure),
     }
     kani::cover!(r.is_ok() && matches!(prior.baud_rate, serial_core::BaudOther(_)), "cov_ok_from_other_baud");
     kani::cover!(r.is_ok() && prior.flow_control == serial_core::FlowHardware && prior.baud_rate == serial_core::Baud19200, "cov_ok_from_19200_hw_flow");
-    kani::cover!(r.is_err() && port.ncalls.get() == 3, "cov_timeout_refused");
-    kani::cover!(r.is_err() && port.ncalls.get() == 1, "cov_read_settings_refused");
+    kani::cover!(r.is_err() && port.fail_set_timeout && !port.fail_read_settings && !port.fail_write_settings, "cov_timeout_refused");
+    kani::cover!(r.is_err() && port.fail_read_settings && port.err_kind % 6 == 2, "cov_read_settings_interrupted");
+    kani::cover!(r.is_ok() && nanos % 1_000_000 != 0, "cov_sub_millisecond_timeout");
 }
 
 /// C20 for SerialSignBus::try_new: a bus object exists only on a fully configured port, with the 5 s timeout.
@@ -209,6 +217,7 @@ fn c20_configure_port() {
 fn c20_serial_sign_bus_try_new() {
     let port = KPort::any();
     let no_failure = !port.fail_read_settings && !port.fail_write_settings && !port.fail_set_timeout;
+    let kind = port.err_kind % 6;
     let r = SerialSignBus::try_new(port);
     match &r {
         Ok(bus) => {
@@ -220,6 +229,7 @@ fn c20_serial_sign_bus_try_new() {
     }
     kani::cover!(r.is_ok(), "cov_ok");
     kani::cover!(r.is_err(), "cov_err");
+    kani::cover!(r.is_err() && (kind == 2 || kind == 3), "cov_err_transient_kind_persisting");
 }
 
 // ----------------------------------------------------------------------------- C16 / C18
@@ -448,7 +458,7 @@ fn event_order(kinds: u16) -> (bool, bool, bool, bool, usize) {
     }
     // built through the public constructor (not a struct literal), so that a bus with additional private fields still
     // compiles; the port set-up it performs is the subject of C20
-    let mut bus = match SerialSignBus::try_new(KPort { settings: any_settings(), timeout: None, fail_read_settings: false, fail_write_settings: false, fail_set_timeout: false, calls: Cell::new([0; 6]), ncalls: Cell::new(0) }) {
+    let mut bus = match SerialSignBus::try_new(KPort { settings: any_settings(), timeout: None, fail_read_settings: false, fail_write_settings: false, fail_set_timeout: false, err_kind: 0, calls: Cell::new([0; 6]), ncalls: Cell::new(0) }) {
         Ok(b) => b,
         Err(e) => {
             core::mem::forget(e);
